@@ -2,14 +2,17 @@
 from pyvc.runner import Prop, Bounded, script_replay
 import contracts.omen_keyspace as ok
 import contracts.omen_level as ol
+import contracts.omen_loader as oml
 
 PROP = Prop(
     'C18', 'The saved OMEN keyspace is the number of guesses a level really produces',
     functions=[ok.OFO + ':save_omen_rules_to_disk#prob_loop', ok.EV + ':calc_omen_keyspace',
                # 'the fraction of training passwords at that level': the level the third pass books a password under
-               (ol.EV + ':find_omen_level', None)],
+               (ol.EV + ':find_omen_level', None),
+               # what the guesser generates from: the IP / CP tables it loads are the files' content
+               (oml.IO + ':_load_ngrams#ip', None), (oml.IO + ':_load_ngrams#cp', None)],
     setup=ok.install,
-    lemmas=lambda: ok.inner_zero.lemmas() + ol.okt_mono.lemmas(),
+    lemmas=lambda: ok.inner_zero.lemmas() + ol.okt_mono.lemmas() + oml.lemmas(),
     level='other',
     replay=script_replay('replay/omen.py', default_fn='KEYSPACE'),
     bounded=[Bounded('C18.bounded.keyspace', 'replay/omen.py', args=['--fn', 'KEYSPACE'],
